@@ -48,7 +48,7 @@ def main():
             out["tests_s"] = round(time.time() - t0)
         for tier in (["quick"] + (["thorough"] if thorough else [])):
             t0 = time.time()
-            r = sh(f"cd {V} && VERIF_REPO={wt} timeout 7000 /venv/bin/python "
+            r = sh(f"cd {V} && VERIF_OUT=/tmp/me/seedout_{pid} VERIF_REPO={wt} timeout 7000 /venv/bin/python "
                    f"harness/check.py {pid} --tier {tier} --no-coq-build")
             lines = [ln for ln in r.stdout.splitlines()
                      if ln.startswith("VIOLATION")]
@@ -77,7 +77,8 @@ def main():
         dst = os.path.join(V, "seeded", pid)
         os.makedirs(dst, exist_ok=True)
         for f in ("patch.diff", "demo.py"):
-            if os.path.exists(os.path.join(src, f)):
+            if os.path.exists(os.path.join(src, f)) and \
+                    os.path.realpath(src) != os.path.realpath(dst):
                 shutil.copy(os.path.join(src, f), os.path.join(dst, f))
         meta = {}
         try:
